@@ -631,4 +631,26 @@ def specHolds (o : Oracle) (ty : Nat) (input : Bytes) (obs : Obs) : Bool :=
 def holds (o : Oracle) (ty : Nat) (wf : Bool) (input : Bytes) (obs : Obs) : Bool :=
   propHolds wf input obs && specHolds o ty input obs
 
+/-! ### two decodes: decoded values are independent of later decodes
+
+The harness decodes `A` into a fresh value and re-marshals it (`a`), decodes `B` into another
+fresh value (`b`), then re-marshals the value obtained from `A` again (`a2`). A result is
+`some out` (accepted, canonical re-marshal) or `none` (error). -/
+
+/-- **model-independent clause**: what was decoded from `A` is not changed by decoding `B`
+    (no mutable state shared between decoded values). -/
+def propHoldsPair (a _b a2 : Option Bytes) : Bool := a2 == a
+
+/-- the model is a pure function of the input: both results are the single-decode predictions -/
+def specHoldsPair (o : Oracle) (ty : Nat) (inA inB : Bytes) (a b : Option Bytes) : Bool :=
+  (match unmarshal o ty inA with
+    | some r => r == a
+    | none => true) &&
+  (match unmarshal o ty inB with
+    | some r => r == b
+    | none => true)
+
+def holdsPair (o : Oracle) (ty : Nat) (inA inB : Bytes) (a b a2 : Option Bytes) : Bool :=
+  propHoldsPair a b a2 && specHoldsPair o ty inA inB a b
+
 end KeepVerif.C19
